@@ -8,6 +8,7 @@
 -/
 import CosetProofs.Roundtrip.BuiltOther
 import CosetProofs.Ties
+import CosetProofs.Roundtrip.EmitNormal
 namespace Coset.Props.C11
 open Coset Coset.Cbor Coset.Spec
 
@@ -149,6 +150,40 @@ theorem tagged_bytes {α : Type} (tag : Nat) (conv : Value → Res α) (toV : α
   have hr := readToValue_enc _ hn hd
   exact ⟨by simp [toTaggedVec, hx], hr, by simp [fromTaggedSlice, hr, tryAsTag]⟩
 
+
+/-! ### (d) the byte level from conditions on the fields alone
+
+  `bytes` / `tagged_bytes` above take "the emitted value is one the serializer represents faithfully" as a hypothesis.  For headers,
+  signatures, COSE_Sign1 and COSE_Key that hypothesis is *derived* here from conditions on the fields (`…NF`): texts are valid UTF-8
+  and lengths fit `u64` (what Rust's `String` / `Vec` guarantee), integers are `i64`s, and the uninterpreted `Value`s placed in extra
+  parameters are themselves `Normal` and nest at most `k` levels. -/
+
+theorem header_emits_normal (h : Header) (k : Nat) (hw : Header.WF maxNest h) (hn : Header.NF k h) :
+    ∃ x, Header.toValue h = .ok x ∧ Cbor.Normal x ∧ Cbor.depthOf x ≤ k + 1 := header_emit_normal h k hw hn
+
+theorem signature_emits_normal (s : CoseSignature) (j : Nat) (hw : CoseSignature.WF maxNest s) (hn : CoseSignature.NF j s) :
+    ∃ x, CoseSignature.toValue s = .ok x ∧ Cbor.Normal x ∧ Cbor.depthOf x ≤ j := signature_emit_normal s j hw hn
+
+/-- COSE_Sign1: `from_slice (to_vec m)` returns `m` (its protected header now carrying the bytes encoding assigned it). -/
+theorem sign1_bytes_from_fields (m : CoseSign1) (k : Nat) (hk : k + 2 ≤ Cbor.recursionLimit)
+    (hp : ProtectedHeader.WF maxNest m.protected_) (hu : Header.WF maxNest m.unprotected)
+    (hpn : ProtectedHeader.NF m.protected_) (hun : Header.NF k m.unprotected)
+    (hpl : ∀ b, m.payload = some b → b.length < 2 ^ 64) (hsg : m.signature.length < 2 ^ 64) :
+    ∃ bs m', toVec CoseSign1.toValue m = .ok bs ∧ fromSlice CoseSign1.fromValue bs = .ok m' ∧
+      ProtectedHeader.erase m'.protected_ = ProtectedHeader.erase m.protected_ ∧ Header.erase m'.unprotected = Header.erase m.unprotected ∧
+      m'.payload = m.payload ∧ m'.signature = m.signature := sign1_built_bytes m k hk hp hu hpn hun hpl hsg
+
+/-- COSE_Key: `from_slice (to_vec key) = key`. -/
+theorem key_bytes_from_fields (key : CoseKey) (k : Nat) (hk : k + 1 ≤ Cbor.recursionLimit) (hw : key.WF) (hn : CoseKey.NF k key) :
+    ∃ bs, toVec CoseKey.toValue key = .ok bs ∧ fromSlice CoseKey.fromValue bs = .ok key := key_built_bytes key k hk hw hn
+
+/-- non-vacuity: the header of the earlier example (algorithm, key id, one extra parameter) satisfies the field-level conditions. -/
+example : Header.NF 0 (.mk (some (.assigned Gen.idx_Algorithm_ES256)) [] none [1, 2] [] [] [] [(.int 100, .int 1)]) := by
+  refine ⟨⟨?_, by simp, by simp, by simp⟩, ⟨by simp, ?_⟩, by simp [csNF]⟩
+  · intro a ha; cases ha; simp only [RegPrivN]; decide +kernel
+  · intro p hp; simp at hp; subst hp
+    exact ⟨by simp [LabelN, i64Min, i64Max], by simp [Cbor.Normal], by simp [Cbor.depthOf]⟩
+
 /-! ### non-vacuity -/
 
 /-- a header with an algorithm, a key id and an extra parameter is well-formed at the API's nesting budget. -/
@@ -199,5 +234,9 @@ theorem tie_header_is_empty : Coset.Gen.headerFields = Coset.Pinned.headerFields
 #print axioms label
 #print axioms bytes
 #print axioms tagged_bytes
+#print axioms header_emits_normal
+#print axioms signature_emits_normal
+#print axioms sign1_bytes_from_fields
+#print axioms key_bytes_from_fields
 
 end Coset.Props.C11
